@@ -12,3 +12,7 @@ import SkfemVerif.Props.C01
 import SkfemVerif.Props.C04
 import SkfemVerif.Props.C11
 import SkfemVerif.Props.C16
+import SkfemVerif.Model.BC
+import SkfemVerif.Model.Quadrature
+import SkfemVerif.Lemmas.BC
+import SkfemVerif.Props.C05
